@@ -164,9 +164,8 @@ func (o *syncOracle) run(out string) []core.Finding {
 		return []core.Finding{fnd("harness.run-output-unparseable", "%s", out)}
 	}
 	res, js := parts[0], parts[1]
-	if res == "tie" {
-		return nil
-	}
+	// a run that ended in a tie (Best had to choose) still consumed verdicts: its journal is
+	// processed like any other, only no final claim is judged
 	var evs []string
 	if js != "-" {
 		evs = strings.Fields(js)
